@@ -376,6 +376,16 @@ fn main() {
         v.push(z);
         v.push(vec![0]);
         v.push(vec![s.iter().product::<usize>(), 1]);
+        // different rank with a common leading prefix (dynamic dimensionality makes this expressible)
+        for k in 0..s.len() {
+            v.push(s[..k].to_vec());
+        }
+        let mut longer = s.clone();
+        longer.push(1);
+        v.push(longer);
+        let mut longer = s.clone();
+        longer.push(2);
+        v.push(longer);
         v.sort();
         v.dedup();
         v
@@ -405,7 +415,7 @@ fn main() {
                         cases.push(Case { routine: r, class: 4, shape: shape.clone(), second: vec![w], axis, qs: vec![], layout });
                     }
                 }
-                let qlists: Vec<Vec<f64>> = vec![vec![0.5], vec![0.0, 1.0, 0.3], vec![-0.1], vec![1.5], vec![0.2, 1.0000000000000002, -3.0], vec![-0.5, 7.0], vec![0.5, -1e-300], vec![]];
+                let qlists: Vec<Vec<f64>> = vec![vec![0.5], vec![0.0, 1.0, 0.3], vec![-0.1], vec![1.5], vec![0.2, 1.0000000000000002, -3.0], vec![-0.5, 7.0], vec![0.5, -1e-300], vec![-0.0], vec![1.0, -0.0, 0.0], vec![]];
                 for qs in qlists {
                     for r in QUANT {
                         let one_d = matches!(r, "quantile_mut" | "quantiles_mut");
@@ -434,7 +444,7 @@ fn main() {
     }
     rep.run_sub(
         "decision-table",
-        &format!("first-input shapes {:?} x layouts {{C, F, stepped+reversed}} x {{17 single-input routines; 18 two-input routines and 2 sum-type routines x second shapes (same, reversed, flattened, one more along axis 0, zero along the last axis, (0,), (count,1)); 4 axis-weight routines and 2 sum-type axis routines x every axis x weights lengths (axis length, +1, 0, 2, 3); 5 quantile routines x every axis x 8 q lists (valid, q<0, q>1, several invalid, barely outside, empty); cov, pearson_correlation; 5 bin strategies}}; f64 and i32 / N64 instantiations", shapes),
+        &format!("first-input shapes {:?} x layouts {{C, F, stepped+reversed}} x {{17 single-input routines; 18 two-input routines and 2 sum-type routines x second shapes (same, reversed, flattened, one more along axis 0, zero along the last axis, (0,), (count,1), every proper prefix of the shape incl. (), the shape extended by an axis of length 1 or 2); 4 axis-weight routines and 2 sum-type axis routines x every axis x weights lengths (axis length, +1, 0, 2, 3); 5 quantile routines x every axis x 10 q lists (valid, q<0, q>1, several invalid, barely outside, negative zero, empty); cov, pearson_correlation; 5 bin strategies}}; f64 and i32 / N64 instantiations", shapes),
         cases.into_iter(),
         |c, lx| {
             lx.nontrivial(true);
